@@ -69,7 +69,7 @@ func (c *ctx) emitG(line, class string, nontriv func(goOut string) bool, tags fu
 // "PANIC <message>" and a call that does not return within the limit into "TIMEOUT" (C09: no entry point
 // may panic or hang), so that the run goes on and the case is reported. A timed-out call cannot be
 // stopped: its goroutine is abandoned, and after a few of them the stream stops evaluating new cases.
-var evalTimeouts atomic.Int32
+var evalTimeouts, slowEvals atomic.Int32
 
 const evalLimit = 15 * time.Second
 
@@ -96,8 +96,16 @@ func safeEval(s *stream, line string) (g, rd string) {
 	case r := <-ch:
 		return r.g, r.rd
 	case <-time.After(lim):
+	}
+	// Slow is not hung: on a loaded machine a call with key generation or many signature checks can exceed the
+	// limit. The same call gets three more limits to come back before it is reported as not returning.
+	select {
+	case r := <-ch:
+		slowEvals.Add(1)
+		return r.g, r.rd
+	case <-time.After(3 * lim):
 		evalTimeouts.Add(1)
-		return "TIMEOUT the call did not return within " + lim.String(), line
+		return "TIMEOUT the call did not return within " + (4 * lim).String(), line
 	}
 }
 
@@ -197,6 +205,9 @@ func main() {
 		c.r.Error = err.Error()
 	}
 	if *out != "" {
+		if n := slowEvals.Load(); n > 0 {
+			c.r.Notes = append(c.r.Notes, fmt.Sprintf("%d call(s) exceeded the per-case limit but returned within the grace period (slow, not hung)", n))
+		}
 		if err := c.r.Write(*out); err != nil {
 			fmt.Fprintln(os.Stderr, err)
 			os.Exit(2)
